@@ -439,6 +439,33 @@ def factory_search(h):
     h.cover("_search explored")
 
 
+@oset("factory.connect", ["C19", "C18"], [FACT + ":connect", FACT + ":_connect_airtouch_4", FACT + ":_connect_airtouch_5"])
+def factory_connect(h):
+    """connect(model, host, port, airtouch_id=, name=, serial=): the same arguments give clients of the two generations
+    that differ only in class, model and registry; omitted arguments get the documented defaults."""
+    if not h.symbolic:
+        return
+    w = World(h.it)
+    g = h.choice("generation", [4, 5])
+    given = {k: h.choice(f"{k}_given", [True, False]) for k in ("airtouch_id", "name", "serial")}
+    kw = {k: {"airtouch_id": "ID-7", "name": "Beach house", "serial": "SER-9"}[k] for k, v in given.items() if v}
+    model = h.member("pyairtouch.api:AirTouchModel", f"AIRTOUCH_{g}")
+    r = h.call(FACT + ":connect", model, "10.1.2.3", 9200, **kw)
+    h.oblige("connect never raises", r.ok)
+    if not r.ok:
+        return
+    cl = r.value
+    sock = h.attr(cl, "_socket")
+    h.oblige("the client is of the generation asked for, on the given host and port, with that generation's registry",
+             And(h.isinstance(cl, GEN[g]["api"] + f":AirTouch{g}"), h.prop(cl, "model").value is model,
+                 h.eq(h.attr(sock, "host"), "10.1.2.3"), h.attr(sock, "port") == 9200,
+                 h.attr(sock, "_registry") is h.get(f"pyairtouch.at{g}.comms.registry:INSTANCE")))
+    h.oblige("airtouch_id: the given one, else '<airtouch-1>'", h.eq(h.prop(cl, "airtouch_id").value, kw.get("airtouch_id", "<airtouch-1>")))
+    h.oblige("name: the given one, else the model's name", h.eq(h.prop(cl, "name").value, kw.get("name", h.attr(model, "value"))))
+    h.oblige("serial: the given one, else host-port", h.eq(h.prop(cl, "serial").value, kw.get("serial", "10.1.2.3-9200")))
+    h.cover("client built")
+
+
 def _register(g):
     G = GEN[g]
     oset(f"at{g}.discovery._open_socket", ["C18"], [DISC + ":AirTouchDiscoverer._open_socket", G["mod"] + ":" + G["reqcls"] + ".data"],
